@@ -621,6 +621,43 @@ func c19Run(c c19Case, st *fw.Stats) []fw.Viol {
 		}
 	case "negotiate":
 		if c.First == 0 {
+			// the JSON renderer with and without HTML escaping, indented or not: the body decodes back to the value - also for
+			// strings that hold the TEXT of an escape sequence
+			for _, v := range []any{"<&>", `a\u003cb`, `{"embedded":"\u0026"}`, map[string]any{"k<": `v\u003e`, "n": 1.5}, []any{"\\u0026", "&"}} {
+				for _, jr := range []render.JSONRenderer{{}, {NotEscape: true}, {Indent: "  "}, {Indent: " ", NotEscape: true}} {
+					st.Evals++
+					st.Nontrivial++
+					wj := httptest.NewRecorder()
+					var err error
+					if pv := try(func() { err = jr.Render(wj, v) }); pv != nil {
+						add("render:panic", fmt.Sprintf("JSONRenderer%+v.Render(%#v) panicked: %v", jr, v, pv))
+					} else if err != nil || !jsonEq(wj.Body.Bytes(), v) {
+						add("render:json-body", fmt.Sprintf("JSONRenderer%+v.Render(%#v): err=%v, body %q does not decode back to the value", jr, v, err, trunc(wj.Body.String())))
+					}
+				}
+			}
+			// ShouldRender reports the failure of THIS rendering (nil when the value was encoded), whatever was recorded on
+			// the context before
+			for _, pre := range []bool{false, true} {
+				for _, tc := range []struct {
+					val  any
+					fail bool
+				}{{map[string]any{"a": 1}, false}, {"text", false}, {make(chan int), true}, {math.NaN(), true}} {
+					st.Evals++
+					st.Nontrivial++
+					var got error
+					preset := ""
+					if pre {
+						preset = "erred|"
+					}
+					w, _, pv := c19Serve(preset, func(ctx *rux.Context) { got = ctx.ShouldRender(201, tc.val, render.JSONRenderer{}) })
+					if pv != nil {
+						add("helper:panic", fmt.Sprintf("ShouldRender(201, %T, JSON) panicked: %v", tc.val, pv))
+					} else if (got != nil) != tc.fail || (got != nil && strings.Contains(got.Error(), "recorded by an earlier middleware")) {
+						add("helper:should-render-error", fmt.Sprintf("ShouldRender(201, %T, JSON) (an error recorded earlier on the context: %v) returned %v; expected failure=%v of this rendering (status %d body %q)", tc.val, pre, got, tc.fail, w.Code, trunc(w.Body.String())))
+					}
+				}
+			}
 			// the first supported type listed answers even when the value cannot be encoded in it: the failure is returned
 			// (nothing falls through to a later entry of the list)
 			for _, tc := range []struct {
@@ -722,7 +759,7 @@ func c19Run(c c19Case, st *fw.Stats) []fw.Viol {
 var c19Spec = fw.Spec[c19Case]{
 	ID:    "C19",
 	Level: "model_checking",
-	Rule: "complete product: every helper on the context of a handler used directly as http.Handler; every helper alone on a fresh router after every ordered pair of 13 helper calls built one earlier response (differential against the pristine process); 11 context helpers x 8 status codes x value alphabets (7 strings with HTML / unicode / control characters; maps, structs, pointers, byte and int slices, scalars; unencodable chan / func / NaN / Inf / cyclic values / invalid json.RawMessage; json.RawMessage values incl. nil; two helper failures in one request with the same or with uncomparable error values; for Stream also 5 reader shapes and 5 sized readers that were partly read before - the rest is streamed and an announced Content-Length equals it) x preset Content-Type absent / present (HTTPError answers text/plain whatever was set before) x another status already selected by an earlier handler / an error already recorded by an earlier middleware (no OnError hook) / the request dispatched by HandleContext on a caller-owned context; 11 pkg/render functions x 3 preset Content-Types; render.Auto x ALL Accept lists of <=3 (thorough 4) entries over 10 entries (the five supported MIME strings, foo/bar, */*, q-parameters, empty) and 9 lists whose answering type (the first supported one listed, or the text/plain fallback) cannot encode the value (the failure is returned); " +
+	Rule: "complete product: every helper on the context of a handler used directly as http.Handler; every helper alone on a fresh router after every ordered pair of 13 helper calls built one earlier response (differential against the pristine process); 11 context helpers x 8 status codes x value alphabets (7 strings with HTML / unicode / control characters; maps, structs, pointers, byte and int slices, scalars; unencodable chan / func / NaN / Inf / cyclic values / invalid json.RawMessage; json.RawMessage values incl. nil; two helper failures in one request with the same or with uncomparable error values; for Stream also 5 reader shapes and 5 sized readers that were partly read before - the rest is streamed and an announced Content-Length equals it) x preset Content-Type absent / present (HTTPError answers text/plain whatever was set before) x another status already selected by an earlier handler / an error already recorded by an earlier middleware (no OnError hook) / the request dispatched by HandleContext on a caller-owned context; 11 pkg/render functions x 3 preset Content-Types; render.Auto x ALL Accept lists of <=3 (thorough 4) entries over 10 entries (the five supported MIME strings, foo/bar, */*, q-parameters, empty) 4 JSON renderer settings (escaping / indentation) x 5 values holding HTML characters and the text of escape sequences; ShouldRender with and without an earlier recorded error; and 9 lists whose answering type (the first supported one listed, or the text/plain fallback) cannot encode the value (the failure is returned); " +
 		"oracle: recorded status, documented Content-Type (preset preserved by every pkg/render renderer), body decodes back (JSONP unwrapped), first supported entry wins, encoding failures land in Context.Errors / the returned error; every evaluation is non-trivial except single-entry Accept lists",
 	Assume: []string{"text/html negotiation is the code's documented no-op and is modelled as such", "XML round trips use one struct type; encoding/xml has no cycle detection so cyclic values are not offered to it"},
 	Bounds: func(tier string) map[string]any {
